@@ -2,3 +2,7 @@ import Lm.Generated.Mem
 import Lm.Mem
 import Lm.Inv.Mem
 import Lm.Props.C10
+import Lm.Generated.Map
+import Lm.Struct.Map
+import Lm.Struct.MapGen
+import Lm.Props.C05
